@@ -392,7 +392,8 @@ impl SubCheck {
             name: name.into(),
             weight,
             run: Box::new(move |acc: &mut Acc| {
-                let n = acc.tier.pick(cases.0, cases.1);
+                // quick case counts in the property tables are multiplied by 3 (fixed work, not a time quota)
+                let n = acc.tier.pick(cases.0.saturating_mul(3), cases.1);
                 let s = strat(acc.tier);
                 acc.drive("main", n, s, &f);
             }),
